@@ -38,6 +38,17 @@ CHECKS = {
         design_ref="DESIGN.md section 8, C05",
         technique="mutation pairs judged by the Lean-proved equivalence validator and the Lean EVM; reflexivity and exception behaviour of the real checker",
     ),
+    "C18": dict(
+        category="proof",
+        text=("Lean model of the constructors (Models/Formula.lean: mkAnd/mkOr/mkNot/mkImplies/mkEq, flattening, literal dropping, "
+              "Python's == as canonical-form equality) with theorems for every valuation and every formula: mkAnd_eval, mkOr_eval, "
+              "mkNot_eval, mkImplies_eval, mkEq_eval, pyEq_sound (structural equality implies equal value, by canon_sound), and "
+              "mkAnd_error_iff (exactly when the code raises). Tie: exact correspondence of the object returned by the real add_* "
+              "functions with the model's, of translate_formula's text with the model's rendering, and of Python's == with pyEq, on "
+              "the bounded-exhaustive and random tree families; truth tables over all valuations are the failing-input search."),
+        design_ref="DESIGN.md section 8, C18",
+        technique="Lean 4 structural-induction theorems about a model of connector_factory + exact input/output correspondence with the real constructors, renderer and ==",
+    ),
 }
 
 NOT_APPLICABLE = [
